@@ -7,7 +7,8 @@ import vt
 from vt import Infra
 
 CT = {"bool": "_Bool", "char": "char", "uchar": "unsigned char", "short": "short", "ushort": "unsigned short",
-      "int": "int", "uint": "unsigned int", "long": "long", "ulong": "unsigned long", "enum": "enum E"}
+      "int": "int", "uint": "unsigned int", "long": "long", "ulong": "unsigned long", "enum": "enum E",
+      "float": "float", "double": "double", "ldouble": "long double"}
 OPS = {"mul": "*", "div": "/", "mod": "%", "add": "+", "sub": "-", "shl": "<<", "shr": ">>", "lt": "<", "gt": ">",
        "le": "<=", "ge": ">=", "eq": "==", "ne": "!=", "band": "&", "bxor": "^", "bor": "|", "land": "&&", "lor": "||",
        "pos": "+", "neg": "-", "bnot": "~", "lnot": "!"}
@@ -59,9 +60,21 @@ def lit(t, v):
     return "((%s)%s)" % (CT[t], ilit(v))
 
 
+FSUF = {"float": ("f", "1e38f"), "double": ("", "1e308"), "ldouble": ("L", "1e4932L")}
+
+
+def fconst(tf, name):
+    """a floating constant expression of type tf for the named value of CInt.FV (those with lit = TRUE are
+    plain floating constants)"""
+    s, big = FSUF[tf]
+    return {"nan": "(0.0%s/0.0%s)" % (s, s), "inf": "(%s*10)" % big, "ninf": "(-%s*10)" % big, "m1_5": "(-1.5%s)" % s,
+            "m0": "(-0.0%s)" % s, "p0": "0.0%s" % s, "p0_5": "0.5%s" % s, "p2": "2.0%s" % s, "big": "1e30%s" % s}[name]
+
+
 def leaves(e, out=None):
+    """the replaceable leaves of a tree: integer leaves and named floating constants ("fv"); a "call" is not one"""
     out = [] if out is None else out
-    if e["k"] == "leaf":
+    if e["k"] in ("leaf", "fv"):
         out.append(e)
     else:
         for f in ("c", "a", "b"):
@@ -76,10 +89,16 @@ def render(e, leaf):
 
     def go(n):
         k = n["k"]
-        if k == "leaf":
+        if k in ("leaf", "fv"):
             i = cnt[0]
             cnt[0] += 1
             return leaf(i, n)
+        if k == "call":                         # ci(v): counts the call, returns v (harness/c07.py PRELUDE7)
+            return "ci(%s)" % ilit(int(n["v"]))
+        if k == "comma":
+            l = go(n["a"])
+            r = go(n["b"])
+            return "(%s, %s)" % (l, r)
         if k == "un":
             return "(%s%s)" % (OPS[n["op"]], go(n["a"]))
         if k == "cast":
@@ -96,7 +115,7 @@ def render(e, leaf):
 
 
 def const_text(e):
-    return render(e, lambda i, n: lit(n["t"], int(n["v"])))
+    return render(e, lambda i, n: fconst(n["t"], n["n"]) if n["k"] == "fv" else lit(n["t"], int(n["v"])))
 
 
 def describe(v):
@@ -112,6 +131,12 @@ def shape(e):
     k = e["k"]
     if k == "leaf":
         return e["t"]
+    if k == "fv":
+        return "%s-%s" % (e["t"], e["n"])
+    if k == "call":
+        return "call"
+    if k == "comma":
+        return "comma(%s,%s)" % (shape(e["a"]), shape(e["b"]))
     if k == "un":
         return "%s(%s)" % (e["op"], shape(e["a"]))
     if k == "cast":
